@@ -343,6 +343,58 @@ def h_adjust(n: int, r1a: bool, r2a: bool, n1a: bool, n2a: bool, r1b: bool, r2b:
     return vkopf.verdict(ok)
 
 
+def _snapshot(v1, v1pref, v1cat, v2, v2pref, v2cat, other):
+    """The cluster's resources of group kopf.dev (+ optionally another group) as a discovery scan would report them."""
+    verbs = frozenset(['list', 'watch', 'patch'])
+    out = []
+    if v1:
+        out.append(references.Resource('kopf.dev', 'v1', 'things', kind='Thing', namespaced=True, preferred=v1pref, verbs=verbs,
+                                       categories=frozenset(['mycat']) if v1cat else frozenset()))
+    if v2:
+        out.append(references.Resource('kopf.dev', 'v2', 'things', kind='Thing', namespaced=True, preferred=v2pref, verbs=verbs,
+                                       categories=frozenset(['mycat']) if v2cat else frozenset()))
+    if other:
+        out.append(references.Resource('other.io', 'v1', 'gadgets', kind='Gadget', namespaced=True, preferred=True, verbs=verbs,
+                                       categories=frozenset(['mycat'])))
+    return out
+
+
+def h_revise(a1: bool, a1p: bool, a1c: bool, a2: bool, a2p: bool, a2c: bool, other: bool,
+             b1: bool, b1p: bool, b1c: bool, b2: bool, b2p: bool, b2c: bool, by_category: bool) -> bool:
+    """
+    post: _ == True
+    """
+    vkopf.begin_path()
+    import kopf
+    from kopf._core.intents import registries
+    from kopf._core.reactor import observation
+    by_category = vkopf.pin('by_category', by_category)
+    registry = registries.OperatorRegistry()
+
+    async def fn(**_):
+        pass
+    if by_category:
+        kopf.on.event(category='mycat', id='h', registry=registry)(fn)
+    else:
+        kopf.on.event('things', id='h', registry=registry)(fn)
+    before = _snapshot(a1, a1p, a1c, a2, a2p, a2c, other)
+    after = _snapshot(b1, b1p, b1c, b2, b2p, b2c, other)
+    # incremental: the initial full scan, then a re-scan of the group after its CRD was modified
+    insights = references.Insights()
+    observation.revise_resources(resources=before, insights=insights, registry=registry, group=None)
+    observation.revise_resources(resources=[r for r in after if r.group == 'kopf.dev'], insights=insights, registry=registry, group='kopf.dev')
+    # reference: what an operator started now (a full scan of the current cluster) would serve
+    fresh = references.Insights()
+    observation.revise_resources(resources=after, insights=fresh, registry=registry, group=None)
+
+    def key(rs):
+        return sorted((r.group, r.version, r.plural, r.preferred, tuple(sorted(r.categories))) for r in rs)
+    ok = key(insights.watched_resources) == key(fresh.watched_resources)
+    if key(before) != key(after):
+        vkopf.witness('crd_modified')
+    return vkopf.verdict(ok)
+
+
 def run_orchestrator(revs, gaps, linger, ties=()):
     """The real orchestration.orchestrator() reacting to insight revisions made by an observer (under the insights'
     condition, as observation.py does); the stand-in watcher takes `linger` seconds to honour its cancellation."""
@@ -456,6 +508,7 @@ def obligations():
     obs += split(Ob('h_watch', {'faults': 1, 'changes': 2, 'pause': True, 'inactivity': 10000}, timeout=3000, path_timeout=300,
                     tiers=('thorough',)), f0=F, a0=[0, 1, 2])
     obs += split(Ob('h_watch', {'faults': 1, 'changes': 2}, timeout=3000, path_timeout=300, tiers=('thorough',)), f0=[none, 0, 3], a0=[0, 1])
+    obs += split(Ob('h_revise', {}, timeout=900, twins=['crd_modified']), by_category=[False, True])
     obs += split(Ob('h_adjust', {}, timeout=900, twins=['changed']), n=[1, 2])
     obs += split(Ob('h_adjust', {}, timeout=3400, tiers=('thorough',)), n=[3])
     obs += split(Ob('h_orchestrator', {}, timeout=900, path_timeout=300, twins=['revision_during_adjustment']), na=[3], nb=[2, 1], nc=[4, 6])
